@@ -148,6 +148,9 @@ def check(run):
         conc = {i: [{"mutation": d}] for i, (ev, d) in enumerate(evl, 1)}
         traces_verify.judge(run, traces, conc, owns, label="mutated-call")
     run.extra["mutated_calls_classified_by_alpha"] = len(classified)
+    # the repository's own test-suite as a trace source
+    from .. import traces_tests
+    traces_tests.judge(run, lambda o: True)
     run.sample({"mutation_example": {"api": "verify_root", "position": "arg 1, path ('signed','version')", "kind": "inf"}})
     run.exhaustive = True
     run.assumptions.append("termination of the Python code is observed through a 10 s watchdog per call, not proved; objects with hostile dunder methods are out of scope")
